@@ -6,6 +6,8 @@ VERIF = os.path.dirname(os.path.dirname(os.path.abspath(__file__)))
 REPO = os.environ.get("VERIF_REPO", "/repo")
 SCRATCH_ROOT = os.environ.get("VERIF_SCRATCH", "/var/tmp/pearl-verif")
 CACHE = os.environ.get("VERIF_CACHE", os.path.join(SCRATCH_ROOT, "cache"))
+# dev only (tools/seed_eval.py): where evidence/ and replays/ are written; registered commands never set it
+OUT = os.environ.get("VERIF_OUT")
 
 ENV = dict(os.environ)
 ENV.update({"CARGO_NET_OFFLINE": "true", "CARGO_TERM_COLOR": "never", "RUST_BACKTRACE": "0"})
@@ -100,7 +102,8 @@ def run(cmd, cwd=None, timeout=None, mem_gb=None, env=None, logfile=None, stdin=
 
 
 def write_evidence(pid, tier, level, coverage, assumptions, wall_s, violations, extra=None):
-    os.makedirs(os.path.join(VERIF, "evidence"), exist_ok=True)
+    out = OUT or VERIF
+    os.makedirs(os.path.join(out, "evidence"), exist_ok=True)
     ev = {
         "property_id": pid,
         "tier": tier,
@@ -113,7 +116,7 @@ def write_evidence(pid, tier, level, coverage, assumptions, wall_s, violations, 
     }
     if extra:
         ev.update(extra)
-    path = os.path.join(VERIF, "evidence", pid + ".json")
+    path = os.path.join(out, "evidence", pid + ".json")
     tmp = path + ".tmp"
     with open(tmp, "w") as fh:
         json.dump(ev, fh, indent=1, sort_keys=False)
